@@ -1,5 +1,7 @@
 package main
 
+import "verif/engine/sym"
+
 func init() {
 	register(&Spec{
 		ID:       "C18",
@@ -26,12 +28,20 @@ func init() {
 			}
 			// through the DNS engine: host rules are reported under the group of their address family
 			jobs = append(jobs, Job{Pkg: "root", Func: "verifC02", Args: []int64{1, 0, 2, 2}}, Job{Pkg: "root", Func: "verifC02", Args: []int64{2, 0, 2, 2}})
+			// with the real hash function on names over {z,q,0,2,3,8}, where it collides ("08"/"2z"): a host rule is returned iff the name is listed
+			jobs = append(jobs, Job{Pkg: "root", Func: "verifC02", Args: []int64{1, 0, 2, 102}, RealHash: true}, Job{Pkg: "root", Func: "verifC02", Args: []int64{2, 0, 2, 102}, RealHash: true})
 			return jobs
 		},
-		Setup:     setupDNS,
+		Setup: func(e *sym.Engine, st *sym.State, l *sym.Loaded) {
+			setupDNS(e, st, l)
+			e.Ctx["psl"] = dnsPSL
+		},
+		Validate: func(l *sym.Loaded, tier string, seed int64) (int, []string) {
+			return sym.ValidatePSL(dnsPSL, 4)
+		},
 		MustReach: []string{"c18.parsed", "c18.match", "c18.bare"},
 		Bounds: map[string]string{
-			"quick":    "address from a menu of 5 literals (IPv4, IPv6, v4-mapped); 1..2 names of 1..2 symbolic bytes over {a,b,.}; separators of 1..2 symbolic blanks/tabs; comment absent, directly attached or after blanks with <=2 symbolic bytes over {#,a,space}; trailing blanks; queried name symbolic; bare domains from a menu of 5; through the DNS engine: 1..2 host rules with IPv4 / IPv6 / IPv4-mapped addresses (C02 harness)",
+			"quick":    "address from a menu of 5 literals (IPv4, IPv6, v4-mapped); 1..2 names of 1..2 symbolic bytes over {a,b,.}; separators of 1..2 symbolic blanks/tabs; comment absent, directly attached or after blanks with <=2 symbolic bytes over {#,a,space}; trailing blanks; queried name symbolic; bare domains from a menu of 5; through the DNS engine: 1..2 host rules with IPv4 / IPv6 / IPv4-mapped addresses (C02 harness), also with the real hash function on names over {z,q,0,2,3,8} on which it collides",
 			"thorough": "1..3 names of 1..3 symbolic bytes, otherwise as quick",
 		},
 		Outside:     []string{"more than 3 names (the property says up to 8)", "names longer than 3 bytes or outside {a,b,.}", "netip's text parser (called on the concrete address literal only)"},
